@@ -51,6 +51,43 @@ theorem eff_rates (c rs ri : α) :
 
 end anyScalar
 
+section spectrumGuard
+variable {α : Type} [Add α] [Mul α] [OfScientific α] [BEq α]
+
+/-- **Zero guards of the spectra (any scalar type — in particular `Float`).** Where the raw singles value
+(`jsi_singles_raw`: forced to 0 outside the validity box and below the pump threshold) compares equal to zero,
+`JointSpectrum::jsi_singles` is the *literal* `0.0` whatever the normalisation is — in particular when the
+normalisation is NaN because the Sellmeier equations are undefined at that frequency (ω → 0) —, and likewise
+`JointSpectrum::jsi` where `jsa_raw` is zero: a grid may contain such pairs without poisoning the summed rates. -/
+theorem spectrum_zero_guard (raw re im n : α) :
+    ((raw == (0.0 : α)) = true → jsiSinglesPoint raw n = (0.0 : α)) ∧
+    ((re == (0.0 : α)) = true → (im == (0.0 : α)) = true → jsiPoint re im n = (0.0 : α)) := by
+  constructor
+  · intro h; simp [jsiSinglesPoint, h]
+  · intro h1 h2; simp [jsiPoint, h1, h2]
+
+end spectrumGuard
+
+/-- over ℝ the guards change nothing (`n·0 = 0`): they matter only in floating point, where `NaN·0 = NaN` — the
+faithful forms `jsiSinglesPoint` / `jsiPoint` and the spec forms `n·raw`, `n·|jsa|²` agree in exact arithmetic. -/
+theorem spectrum_guard_redundant_real (raw re im n : ℝ) :
+    jsiSinglesPoint raw n = n * raw ∧ jsiPoint re im n = n * (re * re + im * im) := by
+  constructor
+  · unfold jsiSinglesPoint
+    split
+    · rename_i h
+      have : raw = 0 := (beq_zero_real raw).mp h
+      rw [this, lit_zero, mul_zero]
+    · rfl
+  · unfold jsiPoint
+    split
+    · rename_i h
+      rw [Bool.and_eq_true] at h
+      have h1 : re = 0 := (beq_zero_real re).mp h.1
+      have h2 : im = 0 := (beq_zero_real im).mp h.2
+      rw [h1, h2, lit_zero]; ring
+    · rfl
+
 /-- **T1b over ℝ**: a zero singles rate gives efficiency 0 (where `x/0 = 0` in Mathlib would have hidden
 a division by zero, the model does not divide at all — see `eff_zero_guard`). -/
 theorem eff_zero_guard_real (c rs ri : ℝ) :
@@ -355,5 +392,11 @@ example : ∃ js J q, Compose.jointSpectrum Compose.exGrid 50 = .ok js ∧ Compo
 
 /-- … and so does the spectrum object of the exchanged setup (idler-singles route) -/
 example : ∃ sw, Compose.jointSpectrum Compose.exGrid.swap 50 = .ok sw := Compose.exGrid_swap_available
+
+example : jsiSinglesPoint (0 : ℝ) 7 = 0 ∧ jsiSinglesPoint (2 : ℝ) 7 = 14 := by
+  have h := spectrum_guard_redundant_real
+  constructor
+  · rw [(h 0 0 0 7).1]; norm_num
+  · rw [(h 2 0 0 7).1]; norm_num
 
 end Spdc.Props.C08
